@@ -188,6 +188,48 @@ class Translator:
                 if isinstance(n, ast.Subscript) and is_self(n.value, "_digesters") and isinstance(n.ctx, (ast.Store, ast.Del)):
                     raise Unsupported(f"self._digesters[...] assigned in {name}")
 
+    def class_constant(self, attr):
+        """`self.X` / `Lysosome.X` where X is a class-level constant: an int / bool / None bound in the class body of
+        the EVALUATED class, that a fresh object does not shadow and that nothing in the module ever assigns
+        (`<anything>.X = ...`, `del`, `setattr`).  Its value, as a Constant node; None when X is not such a thing."""
+        if self.mod is None:
+            return None
+        if not hasattr(self, "_consts"):
+            self._consts = {}
+            try:
+                cls = getattr(self.mod, CLASS)
+                obj = cls(silent=True)
+                stored = {x.attr for x in ast.walk(self.tree)
+                          if isinstance(x, ast.Attribute) and isinstance(x.ctx, (ast.Store, ast.Del))}
+                dynamic = any(isinstance(x, ast.Call) and isinstance(x.func, ast.Name) and x.func.id in ("setattr", "delattr")
+                              for x in ast.walk(self.tree))
+                for name, v in vars(cls).items():
+                    if (v is None or type(v) in (int, bool)) and name not in vars(obj) and name not in stored \
+                            and not dynamic and not name.startswith("__"):
+                        self._consts[name] = v
+            except BaseException:   # noqa
+                self._consts = {}
+        if attr in self._consts:
+            return ast.Constant(value=self._consts[attr])
+        return None
+
+    def module_constant(self, name):
+        """a module-level name bound ONCE, at top level, to an int / bool / None (by evaluation of the module), never
+        declared global / rebound / deleted anywhere: its value as a Constant node, else None"""
+        if self.mod is None or name in self.rebound or not hasattr(self.mod, name):
+            return None
+        v = getattr(self.mod, name)
+        if not (v is None or type(v) in (int, bool)):
+            return None
+        binds = [x for x in ast.walk(self.tree) if isinstance(x, ast.Name) and x.id == name
+                 and isinstance(x.ctx, (ast.Store, ast.Del))]
+        top = [t for st in self.tree.body if isinstance(st, (ast.Assign, ast.AnnAssign))
+               for t in (st.targets if isinstance(st, ast.Assign) else [st.target])
+               if isinstance(t, ast.Name) and t.id == name]
+        if len(binds) != 1 or len(top) != 1 or binds[0] is not top[0]:
+            return None
+        return ast.Constant(value=v)
+
     def is_logger(self, node):
         while isinstance(node, ast.Attribute):
             node = node.value
@@ -241,7 +283,7 @@ class Translator:
 
     def signature(self, m, fn, argtypes, entry):
         a = fn.args
-        if a.vararg or a.kwarg or a.kwonlyargs or a.posonlyargs or fn.decorator_list:
+        if a.vararg or a.kwarg or a.posonlyargs or fn.decorator_list or (a.kwonlyargs and not entry):
             bad(fn, f"signature of {m}")
         for n in ast.walk(fn):
             if isinstance(n, (ast.Yield, ast.YieldFrom, ast.Await, ast.Lambda, ast.NamedExpr, ast.Global, ast.Nonlocal)):
@@ -261,13 +303,17 @@ class Translator:
             head = [(n, w) for (n, _), w in zip(head, want)]
             nd = len(a.defaults)
             for i, (name, _) in enumerate(tail):
-                k = len(a.args) - 1 - (len(want) + i)
+                k = len(a.args) - 2 - (len(want) + i)        # distance from the last parameter (a.args[0] is self)
                 if k >= nd:
                     bad(fn, f"extra parameter {name} of {m} has no default")
                 dv = a.defaults[nd - 1 - k]
                 if not isinstance(dv, ast.Constant):
                     bad(fn, f"default of extra parameter {name} is not a constant")
                 extra.append((name, dv))
+            for arg, dv in zip(a.kwonlyargs, a.kw_defaults):      # keyword-only parameters: the modelled call omits them
+                if not isinstance(dv, ast.Constant):
+                    bad(fn, f"keyword-only parameter {arg.arg} of {m} has no constant default")
+                extra.append((arg.arg, dv))
             return head, extra
         if argtypes is not None:
             if len(argtypes) > len(ps):
@@ -443,6 +489,9 @@ class Translator:
                 if t == "oint" and ("local:" + n.id) in env["nonnull"]:
                     return f"({c}.getD 0)", "int"
                 return c, t
+            k = self.module_constant(n.id)
+            if k is not None:
+                return self.ex(k, env)
             bad(n, f"name {n.id}")
         if isinstance(n, ast.Attribute):
             if is_self(n):
@@ -458,7 +507,14 @@ class Translator:
                     return "cfg.onToxic", "callback"
                 if n.attr == "_digesters":
                     return "()", "digtable"
+                k = self.class_constant(n.attr)
+                if k is not None:
+                    return self.ex(k, env)
                 bad(n, f"attribute self.{n.attr}")
+            if isinstance(n.value, ast.Name) and n.value.id == CLASS and CLASS not in env["locals"]:
+                k = self.class_constant(n.attr)
+                if k is not None:
+                    return self.ex(k, env)
             if isinstance(n.value, ast.Name) and n.value.id == "WasteType" and n.attr in WTYPES \
                     and "WasteType" not in env["locals"]:
                 return WTYPES[n.attr], "wtype"
